@@ -199,9 +199,11 @@ def _check(item: dict, out: dict) -> None:
     sql_keep = model.where(tree)
     ref_keep = ref.keeps(term)
     out["sql_ops"] = model.used
-    solver = z3.Solver()
-    solver.set("timeout", timeout_ms)
-    solver.add(db.cons + ccons + model.side + ref.side)
+    def make_solver():
+        sv = z3.Solver()
+        sv.set("timeout", timeout_ms)
+        sv.add(db.cons + ccons + model.side + ref.side)
+        return sv
     # OData-level view of the same region: the *value* of a non-literal pattern argument (field, call, concat of a
     # literal wildcard with a field, ...) - in the SQL text a user-written '%' inside concat() cannot be told apart
     # from the wildcard the visitor adds, so the region is stated on the filter, not on the emitted text
@@ -216,34 +218,25 @@ def _check(item: dict, out: dict) -> None:
                     continue
                 if getattr(v, "kind", None) == "str":
                     nonlit.append(v)
-    solver.add(regions.dynamic_constraints(active, {"likes": model.likes, "nonliteral_patterns": nonlit}))
-    solver.add(ref.side)
-    solver.push()
-    solver.add(sql_keep != ref_keep)
-    ts = time.time()
-    res = solver.check()
-    out["solver_s"] = round(time.time() - ts, 4)
-    if res == z3.unknown:
+    rmap = regions.dynamic_map(active, {"likes": model.likes, "nonliteral_patterns": nonlit})
+    dec = regions.solve_with_regions(make_solver, sql_keep != ref_keep, rmap)
+    out["solver_s"] = dec["solver_s"]
+    if dec["status"] == "unknown":
         out["status"] = "inconclusive"
-        out["why"] = f"z3: {solver.reason_unknown()}"
+        out["why"] = dec["why"]
         return
-    if res == z3.unsat:
-        solver.pop()
-        ts = time.time()
-        r2 = solver.check()                       # vacuity: the assumptions alone must be satisfiable
-        out["solver_s"] = round(out["solver_s"] + time.time() - ts, 4)
-        if r2 == z3.unsat:
-            out["status"] = "outside"
-            out["why"] = "vacuous: the assumptions (divisor != 0, substring range, no overflow) exclude every row"
-            return
-        if r2 != z3.sat:
-            out["status"] = "inconclusive"
-            out["why"] = f"vacuity check: z3 {r2}"
-            return
+    if dec["status"] == "vacuous":
+        out["status"] = "outside"
+        out["why"] = "vacuous: the assumptions (divisor != 0, substring range, no overflow) exclude every row"
+        return
+    if dec["status"] == "known":
+        out["status"] = "known"
+        out["known_id"] = dec["known_id"]
+        return
+    if dec["status"] == "unsat":
         out["status"] = "discharged"
-        if active:
-            out["modulo"] = [r for r in active if r in regions.DYNAMIC]
         return
+    solver = dec["solver"]
     # ---- sat: prefer a small witness (greedy: each preference is kept only if the query stays sat)
     m = solver.model()
     for pref in _preferences(db, consts, term):
